@@ -228,12 +228,15 @@ def race_and_validate(out, seed, hr_args, name, timeout):
         det["args"] = list(hr_args)
         out.report(feats, det)
     reported = {(d_.get("run"), d_.get("attempt", 0)) for _, d_ in bad}
-    for key, ms in extra.items():           # e.g. a panic in a run TLC already rejected earlier for another reason
-        if key not in reported:
-            for m in ms:
-                m["detail"]["seed"] = seed
-                m["detail"]["args"] = list(hr_args)
-                out.report(m["features"], m["detail"])
+    nextra = 0
+    for key, ms in sorted(extra.items()):   # panics in runs that TLC did not get to (it gives up after 8 rejected runs per chunk)
+        if key not in reported and nextra < 20:
+            nextra += 1
+            m = ms[0]
+            m["detail"]["seed"] = seed
+            m["detail"]["args"] = list(hr_args)
+            m["detail"]["panics_in_this_run"] = len(ms)
+            out.report(m["features"], m["detail"])
     out.cov["traces_validated_against_impl"] += accepted
     out.cov["evaluations"] += summary["queries"]
     out.cov["distinct_nontrivial"] += summary["racing_runs"]
